@@ -26,6 +26,7 @@ class Real:
     def __init__(self):
         self.vars, self.emvars, self.tcs, self.trs = [], [], [], []
         self.layouts: dict = {}
+        self.notes: list = []
 
     def layout(self, d) -> int:
         key = str(d.data.dtype.descr)  # record-vs-void flavour of the same layout is irrelevant (dtype equality ignores it)
@@ -72,7 +73,9 @@ class Real:
             elif k == "newTc":
                 self.tcs.append(EmulsionTimeCourse())
             elif k == "tcAppend":
+                before = list(self.tcs[op[1]].times)
                 self.tcs[op[1]].append(self.emvars[op[2]], time=op[3], copy=bool(op[4]))
+                self._paired(before, list(self.tcs[op[1]].times), op[3], "EmulsionTimeCourse")
             elif k == "tcGet":
                 self.emvars.append(self.tcs[op[1]][op[2]])
             elif k == "tcSlice":
@@ -82,7 +85,9 @@ class Real:
             elif k == "newTr":
                 self.trs.append(DropletTrack())
             elif k == "trAppend":
+                before = list(self.trs[op[1]].times)
                 self.trs[op[1]].append(self.vars[op[2]], time=op[3])
+                self._paired(before, list(self.trs[op[1]].times), op[3], "DropletTrack")
             elif k == "trGet":
                 self.vars.append(self.trs[op[1]][op[2]])
             elif k == "trSlice":
@@ -95,6 +100,13 @@ class Real:
             return "ok"
         except (IndexError, ValueError) as e:
             return "err " + type(e).__name__
+
+    def _paired(self, before, after, t, what):
+        """the list model of append, stated directly (independent of the Lean model): the member is paired with the time that was given, or with
+        the documented default (last time + 1, 0 for an empty collection) when none was given"""
+        want = before + [t if t is not None else (before[-1] + 1 if before else 0)]
+        if after != want:
+            self.notes.append(f"{what}.append(time={t!r}) on times {before}: stored times {after}, the list model holds {want}")
 
     # canonical dump (same traversal as the Lean driver)
     def dump(self) -> str:
@@ -234,6 +246,9 @@ def run_sequence(ck: Check, ops, reqs, expect, key):
         toks.append(op_token(op, real))
         res = real.exec(op)
         outs.append(f"{res} {real.dump()}")
+        if real.notes:
+            ck.fail(real.notes[0], {"check": "append_pairs_member_with_given_time"}, {"ops": [" ".join(map(str, o)) for o in ops[: len(outs)]]})
+            real.notes.clear()
     ck.case(key, nontrivial=len(ops) > 3)
     reqs.append("c20 " + " ; ".join(toks))
     expect.append((ops, outs))
